@@ -110,11 +110,13 @@ def _compare(db, chk, m):
             if name == "_trace_argument_adapter":
                 return pos[0]
             if name.endswith(".extract_ops"):
-                who = name.split(".")[0]
+                recv = I.eval(node.func.value)
+                who = {"control": "control_trace", "test": "test_trace"}.get(getattr(recv, "name", ""), "?")
                 calls.append((who, [to_term(p) for p in pos]))
                 return Frame(("param", "OPS_" + who))
             if name.endswith(".get_ops_summary"):
-                who = name.split(".")[0]
+                recv = I.eval(node.func.value)
+                who = {"control": "control_trace", "test": "test_trace"}.get(getattr(recv, "name", ""), "?")
                 a = pos[0]
                 calls.append((who + ".summary", a.base if isinstance(a, Frame) else to_term(a)))
                 return Frame(("param", "SUM_" + who), known=list(SUMCOLS))
@@ -168,7 +170,7 @@ def _classes(db, chk, m):
     def hook(I, name, pos, kw, node):
         if name == "_trace_argument_adapter":
             return pos[0]
-        if name == "cls.compare_traces":
+        if name.endswith(".compare_traces"):
             passed.append([to_term(p) for p in pos])
             return Frame(CMP)
         return NotImplemented
